@@ -39,6 +39,31 @@ class OpError(Exception):
         self.attempt, self.klass, self.ra = attempt, klass, ra
 
 
+_FLAVOURS: list = []
+
+
+def exc_flavours() -> list:
+    """OpError subclasses that are also instances of exception types the library itself uses or
+    catches: an operation may raise any of them and they are ordinary failures to be classified."""
+    if not _FLAVOURS:
+        from redress.errors import CircuitOpenError, PermanentError
+
+        class OpCircuitOpen(OpError, CircuitOpenError):
+            pass
+
+        class OpTimeout(OpError, TimeoutError):
+            pass
+
+        class OpLookup(OpError, LookupError):
+            pass
+
+        class OpPermanent(OpError, PermanentError):
+            pass
+
+        _FLAVOURS.extend([OpError, OpCircuitOpen, OpTimeout, OpLookup, OpPermanent])
+    return _FLAVOURS
+
+
 class HookError(Exception):
     """ordinary exception raised by an observability hook"""
 
@@ -51,6 +76,16 @@ class Value:
 
     def __repr__(self) -> str:
         return f"Value(#{self.attempt},{self.klass})"
+
+
+class FalsyValue(Value):
+    """a result that is falsy and empty, like 0, "" or []"""
+
+    def __bool__(self) -> bool:
+        return False
+
+    def __len__(self) -> int:
+        return 0
 
 
 LOOP_MODE = False     # True while a scenario runs under a real asyncio event loop
@@ -112,11 +147,15 @@ def ticks(x: float | None) -> int:
     return NOT_TICKS if t is None else t
 
 
-def _us(x) -> int:
-    """requested sleep in whole microseconds, rounded down (never overstates a sleep)"""
+def _us(x) -> dict:
+    """requested sleep in whole microseconds, rounded down (never overstates a sleep), as whole
+    ticks `ut` plus a remainder `us` of 0..15624 microseconds (TLC's integers are 32 bit)"""
     if not isinstance(x, (int, float)) or isinstance(x, bool) or x != x or x in (math.inf, -math.inf):
-        return NOT_TICKS
-    return int(math.floor(x * 1_000_000 + 1e-6))
+        return {"ut": NOT_TICKS, "us": 0}
+    us = int(math.floor(x * 1_000_000 + 1e-6))
+    if us < 0:
+        return {"ut": -1, "us": 0}
+    return {"ut": us // 15625, "us": us % 15625}
 
 
 def class_perm(seed: int) -> dict[str, str]:
@@ -165,6 +204,9 @@ class Env:
         self.site_fault: dict | None = None
         self.site_calls: dict[str, int] = {}
         self.call_index = 0
+        # None | "all" | "nocircuit": vary the python types of raised exceptions (incl. library
+        # exception types), of abort requests (the public alias) and of results (falsy ones)
+        self.flavours: str | None = None
 
     # ------------------------------------------------------------------ helpers
     def now(self) -> int:
@@ -202,22 +244,30 @@ class Env:
         self.trace.append({"e": "invoke", "n": n, "t": t, "out": sc["out"], "k": sc["k"],
                            "ra": sc["ra"], "dur": sc["dur"], "t1": self.now()})
         out = sc["out"]
+        vcls = FalsyValue if self.flavours and n % 2 == 1 else Value
         if out == "ok":
-            v = Value(n, None, NONE)
+            v = vcls(n, None, NONE)
             self.values.append(v)
             return v
         if out == "res":
-            v = Value(n, sc["k"], sc["ra"])
+            v = vcls(n, sc["k"], sc["ra"])
             self.values.append(v)
             return v
         if out == "excsame" and self.raised and isinstance(self.raised[-1], OpError):
             exc: BaseException = self.raised[-1]          # the very same object again
             exc.klass, exc.ra = sc["k"], sc["ra"]
         elif out in ("exc", "excsame"):
-            exc = OpError(n, sc["k"], sc["ra"])
+            ecls = OpError
+            if self.flavours:
+                fl = [c for c in exc_flavours() if self.flavours == "all" or c.__name__ != "OpCircuitOpen"]
+                ecls = fl[(n + self.call_index) % len(fl)]
+            exc = ecls(n, sc["k"], sc["ra"])
         elif out == "abort":
             from redress.errors import AbortRetryError
             exc = AbortRetryError()
+            if self.flavours and n % 2 == 0:
+                import redress
+                exc = redress.AbortRetry()        # the public alias
         elif out == "cancel":
             exc = asyncio.CancelledError()
         elif out == "kbd":
@@ -414,7 +464,7 @@ class Env:
         t = self.now()
         st = ticks(s)
         if adv in ("kbd", "sysexit", "cancel"):
-            self.trace.append({"e": "sleep", "s": st, "us": _us(s), "adv": adv, "t": t, "t1": t})
+            self.trace.append({"e": "sleep", "s": st, **_us(s), "adv": adv, "t": t, "t1": t})
             exc = {"kbd": KeyboardInterrupt, "sysexit": SystemExit,
                    "cancel": asyncio.CancelledError}[adv]()
             self.sleeper_exc = exc
@@ -422,7 +472,7 @@ class Env:
         base = st if st >= 0 else 0
         d = {"exact": base, "over1": base + 1, "over4": base + 4, "none": 0}[adv]
         self.clock.advance(d)
-        self.trace.append({"e": "sleep", "s": st, "us": _us(s), "adv": adv, "t": t, "t1": self.now()})
+        self.trace.append({"e": "sleep", "s": st, **_us(s), "adv": adv, "t": t, "t1": self.now()})
 
     def sleeper(self, s: float) -> None:
         self._sleep_common(s)
@@ -709,13 +759,15 @@ def run_scenario(cfg: dict, events: list[dict], *, entry: str, perm=None, place:
                  async_callbacks: bool = False, hook_fault: dict | None = None,
                  wall: str = "jump", site_fault: dict | None = None, hooks: bool = False,
                  force_mode: str | None = None, timeline: bool = False, atimeout: bool = False,
-                 loop: bool = False, breaker_cfg: dict | None = None) -> list[dict]:
+                 loop: bool = False, breaker_cfg: dict | None = None,
+                 flavours: str | None = None) -> list[dict]:
     """Execute the scenario through one entry point of the real library; returns the observed
     event list (same vocabulary as M's behaviours)."""
     is_async = entry.startswith(("Async", "async"))
     env = Env(cfg, events, perm=perm, is_async=is_async, async_callbacks=async_callbacks,
               hook_fault=hook_fault, wall=wall)
     env.site_fault = site_fault
+    env.flavours = flavours
     ctor, call = retry_kwargs(env, cfg, place=place, atimeout=atimeout)
     if hooks:
         call.update(on_attempt_start=env.astart, on_attempt_end=env.aend)
